@@ -79,6 +79,7 @@ static void hk_case_begin(int k) {
     hk_case_no = k;
     hk_reseed(hk_seed0, hk_engine, (uint64_t)k);
     printf("CASE %d\n", k);
+    fflush(stdout); /* so that a crash is attributed to this case */
 }
 
 static void run_case(int k); /* provided by the engine */
